@@ -172,7 +172,142 @@ def judge_batch(job):
     return out
 
 
+# ---------------------------------------------------------------------------
+# descriptors only the runtime API can express: sizer shift, structs without members
+# ---------------------------------------------------------------------------
+
+ELEMENT_BOUND = 65536       # the runtime's guard on decoded element counts
+
+
+def runtime_zoo():
+    import prophy
+    mk = lambda name, desc: type(name, (prophy.with_metaclass(prophy.struct_generator, prophy.struct),), {'_descriptor': desc})   # noqa
+    Empty = mk('Empty', [])
+    S1 = mk('S1', [('a', prophy.u16)])
+    zoo = []
+    zoo.append((mk('ShiftU8', [('n', prophy.u32), ('x', prophy.array(prophy.u8, bound='n', shift=2))]),
+                [lambda m: None, lambda m: m.x.extend([1, 2, 3])]))
+    zoo.append((mk('ShiftStruct', [('n', prophy.u16), ('x', prophy.array(S1, bound='n', shift=1)), ('t', prophy.u8)]),
+                [lambda m: None, lambda m: (m.x.add(), m.x.add())]))
+    zoo.append((mk('ShiftBytes', [('n', prophy.u8), ('b', prophy.bytes(bound='n', shift=3))]),
+                [lambda m: setattr(m, 'b', b''), lambda m: setattr(m, 'b', b'ab')]))   # (an unset bytes field is F11)
+    zoo.append((mk('ShiftEmpty', [('n', prophy.u32), ('x', prophy.array(Empty, bound='n', shift=1))]),
+                [lambda m: None, lambda m: m.x.add()]))
+    zoo.append((mk('BoundEmpty', [('n', prophy.u32), ('x', prophy.array(Empty, bound='n')), ('t', prophy.u8)]),
+                [lambda m: None, lambda m: (m.x.add(), m.x.add())]))
+    zoo.append((mk('GreedyEmpty', [('a', prophy.u8), ('g', prophy.array(Empty))]),
+                [lambda m: None, lambda m: m.g.add()]))
+    zoo.append((mk('OnlyEmpty', [('e', Empty), ('t', prophy.u16)]), [lambda m: None]))
+    return zoo
+
+
+def word_faults(data, e):
+    """Span-free fault menu: every proper prefix, short extensions, every 1-, 2- and 4-byte word at every offset replaced
+    by boundary values (so every control word is hit whatever the layout is)."""
+    import struct as _st
+    for k in range(len(data)):
+        yield 'prefix@%d' % k, data[:k]
+    for ext in (b'\x00', b'\xff', b'\x00' * 4, b'\xff' * 8):
+        yield 'extend+%d' % len(ext), data + ext
+    vals = {1: [0, 1, 2, 3, 4, 0x7f, 0x80, 0xff],
+            2: [0, 1, 2, 3, 0x7fff, 0x8000, 0xffff],
+            4: [0, 1, 2, 3, 0xffff, 0x10000, 0x10001, 0x10002, 200000, 0x7fffffff, 0x80000000, 0xffffffff]}
+    for w in (1, 2, 4):
+        for i in range(0, len(data) - w + 1):
+            for v in vals[w]:
+                yield 'word%d@%d=0x%x' % (w, i, v), data[:i] + _st.pack(e + {1: 'B', 2: 'H', 4: 'I'}[w], v) + data[i + w:]
+
+
+def array_lengths(msg):
+    out = []
+    for name, tp, kind in msg.get_descriptor():
+        v = getattr(msg, name, None)
+        if hasattr(v, '_values'):
+            out.append(len(v))
+            out += [n for el in v if hasattr(el, 'get_descriptor') for n in array_lengths(el)]
+        elif hasattr(v, 'get_descriptor'):
+            out += array_lengths(v)
+    return out
+
+
+def judge_runtime_zoo(job):
+    import prophy
+    T.setup_repo()
+    out = {'viol': [], 'inputs': 0, 'outcomes': {}, 'distinct': 0, 'classes': 0}
+    seen = {}
+
+    def viol(key, cls, data, e, label, detail):
+        seen[key] = seen.get(key, 0) + 1
+        out['viol'].append((key, {'runtime_zoo': cls.__name__, 'endian': e, 'input': data.hex(), 'fault': label, 'detail': detail}
+                            if seen[key] <= 2 else None))
+    try:
+        for cls, builders in runtime_zoo():
+            out['classes'] += 1
+            base_calls, inputs = 10, []
+            for b in builders:
+                for e in '<>':
+                    m = cls()
+                    b(m)
+                    data = m.encode(e)
+                    base_calls = max(base_calls, timed_decode(cls, data, e, 10 ** 6)[3])
+                    inputs.append(('valid', data, e))
+                    inputs += [(label, d, e) for label, d in word_faults(data, e)]
+            # work is bounded by the input size or, for elements without bytes, by the runtime's element bound
+            budget = 4 * base_calls + 400 + 40 * ELEMENT_BOUND
+            done = set()
+            for label, data, e in inputs:
+                if (data, e) in done:
+                    continue
+                done.add((data, e))
+                out['inputs'] += 1
+                msg, n, o, calls = timed_decode(cls, data, e, budget)
+                out['outcomes'][o] = out['outcomes'].get(o, 0) + 1
+                kind = label.split('@')[0].split('+')[0]
+                if o == 'BUDGET':
+                    viol('runtime|budget|%s|%s' % (cls.__name__, kind), cls, data, e, label, 'decode exceeded %d Python calls' % budget)
+                elif o not in ('return', 'ProphyError'):
+                    viol('runtime|raises|%s|%s|%s' % (o, cls.__name__, kind), cls, data, e, label, 'decode raised %s' % o)
+                elif o == 'return':
+                    out['distinct'] += 1
+                    big = [k for k in array_lengths(msg) if k > ELEMENT_BOUND]
+                    if big:
+                        viol('runtime|element-count-unbounded|%s' % cls.__name__, cls, data, e, label,
+                             'decode of %d bytes returned an array of %d elements (bound %d)' % (len(data), big[0], ELEMENT_BOUND))
+                        continue
+                    if label == 'valid' and n != len(data):
+                        viol('runtime|valid-not-consumed|%s' % cls.__name__, cls, data, e, label, 'returned %r' % n)
+                    try:
+                        enc1 = msg.encode(e)
+                        m2 = cls()
+                        n2 = m2.decode(enc1, e)
+                        if n2 != len(enc1) or m2.encode(e) != enc1:
+                            viol('runtime|not-a-fixpoint|%s|%s' % (cls.__name__, kind), cls, data, e, label,
+                                 '%s -> %s (%r of %d consumed)' % (enc1.hex(), m2.encode(e).hex(), n2, len(enc1)))
+                    except Exception as ex:     # noqa
+                        if not (cls.__name__ == 'GreedyEmpty' and isinstance(ex, prophy.ProphyError)):
+                            viol('runtime|fixpoint-raises|%s|%s|%s' % (type(ex).__name__, cls.__name__, kind), cls, data, e,
+                                 label, str(ex)[:200])
+    except Exception:       # noqa
+        out['harness_error'] = traceback.format_exc()
+    return out
+
+
 def run(ctx):
+    for res in ctx.pmap(judge_runtime_zoo, [None]):
+        if 'harness_error' in res:
+            raise HarnessError(res['harness_error'])
+        ctx.cov['evaluations'] += res['inputs']
+        ctx.cov['states'] += res['inputs']
+        ctx.cov['transitions'] += res['inputs']
+        ctx.cov['traces_validated_against_impl'] += res['inputs']
+        ctx.cov['runtime_only_descriptors'] = res['classes']
+        ctx.cov['runtime_only_inputs'] = res['inputs']
+        for k, n in res['outcomes'].items():
+            ctx.outcome(k, n)
+        for key, art in res['viol']:
+            ctx.violation_counts[key] = ctx.violation_counts.get(key, 0) + 1
+            if art is not None and len(ctx.violations.setdefault(key, [])) < 3:
+                ctx.violations[key].append(art)
     states = F.fault_universe(ctx.tier, ctx.seed)
     jobs = [(b, ctx.tier, 'faults') for b in U.batches(states, 12)]
     jobs += [(b, ctx.tier, 'short') for b in U.batches(F.short_string_schemas(), 2)]
@@ -207,7 +342,10 @@ def run(ctx):
                        'replaced by each of 13+ boundary values; every byte xor 01, xor 80, set FF) %s, plus all strings of '
                        'length <= %d over {00,01,02,03,FF} for %d small schemas. distinct_nontrivial = distinct corrupted '
                        'inputs that decode returned on (fixpoint checked). Outcome must be return or ProphyError within '
-                       '4x the Python-call count of the largest valid decode + 400.' % (
+                       '4x the Python-call count of the largest valid decode + 400. Seven hand-written descriptors '
+                       '(sizer shift, structs without members: not expressible in the IDL) get a layout-free menu: every prefix, '
+                       'every 1/2/4-byte word at every offset x boundary values; besides the outcome and the fixpoint, no returned '
+                       'array may exceed the runtime element bound of 65536.' % (
                            '+ pairs of control-word faults and prefix-after-fault' if ctx.tier == 'thorough' else '(deviation bound 1)',
                            6 if ctx.tier == 'quick' else 8, len(F.short_string_schemas())))
     if len(ctx.cov['outcomes']) < 2:
@@ -216,6 +354,14 @@ def run(ctx):
 
 def replay(art):
     import prophy
+    if art.get('runtime_zoo'):
+        out = judge_runtime_zoo(None)
+        hits = [a for k, a in out['viol'] if a and a['runtime_zoo'] == art['runtime_zoo'] and a['fault'].split('@')[0] ==
+                art['fault'].split('@')[0]] or [a for k, a in out['viol'] if a and a['runtime_zoo'] == art['runtime_zoo']]
+        if hits:
+            return 'hand-written descriptor %s, input %s (%s): %s' % (hits[0]['runtime_zoo'], hits[0]['input'], hits[0]['endian'],
+                                                                      hits[0]['detail'])
+        return None
     defs = S.defs_from_json(art['defs'])
     ref = R.Ref(defs)
     res = T.compile_text(art['schema'], outs=('python',))
